@@ -92,8 +92,8 @@ def mutate_echo(rng, hs):
 
 class C16(Prop):
     id = "C16"
-    translators = []
-    proof_targets = ["Master/CommandProofs.vo", "Master/MTaskProofs.vo"]
+    translators = ["gen_master_tables"]
+    proof_targets = ["Master/CommandProofs.vo", "Master/MTaskProofs.vo", "Master/TablesAgree.vo"]
     property_file = "Properties/C16.v"
     theorems = []
     modelled = ("modelled by hand: master/request.rs (CommandHeaders::write / compare, compare_items), "
